@@ -1031,7 +1031,13 @@ func (i *interpreter) callBuiltin(caller *frame, callpos token.Pos, fn *ssa.Buil
 			}
 			return out
 		}
-		ncap := 2*cap(dst) + len(add)
+		var elemT types.Type
+		if sig, ok := fn.Type().(*types.Signature); ok && sig.Results().Len() == 1 {
+			if st, ok := sig.Results().At(0).Type().Underlying().(*types.Slice); ok {
+				elemT = st.Elem()
+			}
+		}
+		ncap := gcGrowCap(len(dst)+len(add), cap(dst), elemT)
 		out := make([]value, len(dst)+len(add), ncap)
 		for k := range dst {
 			out[k] = copyVal(dst[k])
@@ -1425,7 +1431,7 @@ func (i *interpreter) conv(t_dst, t_src types.Type, x value) value {
 			case *types.Slice:
 				switch ut_dst.Elem().Underlying().(*types.Basic).Kind() {
 				case types.Byte:
-					return append([]value{}, []value(ss)...)
+					return gcBytesOfString([]value(ss))
 				case types.Rune:
 					var res []value
 					b := []value(ss)
@@ -1467,7 +1473,7 @@ func (i *interpreter) conv(t_dst, t_src types.Type, x value) value {
 					for _, b := range []byte(s) {
 						res = append(res, b)
 					}
-					return res
+					return gcBytesOfString(res)
 				}
 			case *types.Basic:
 				if ut_dst.Kind() == types.String {
